@@ -40,6 +40,25 @@ extern "C"
             h_unlocking(1);
             return;
         }
+        if (use_save == 0 && depth == 3)
+        {
+            // the C functions and the C++ guard on the same lock, undone out of order: two acquisitions (C, then guard), one
+            // release through the C function while the guard is still alive - one level is still held until the guard dies
+            system_lock();
+            h_locked(1);
+            *counter = *counter + 1;
+            {
+                igris::syslock_guard g;
+                h_locked(2);
+                *counter = *counter + 1;
+                h_unlocking(2);
+                system_unlock();
+                *counter = *counter + 1; // still inside the critical section
+                *counter = *counter + 1;
+                h_unlocking(1);
+            }
+            return;
+        }
         for (int d = 1; d <= depth; d++)
         {
             system_lock();
